@@ -218,6 +218,41 @@ def run(F, ck, tier):
     E.check('R08.5', dict(id='prover.multiplicities', fn='plonk::prover::set_lookup_wires', crate='plonky2', kind='try', callee='set_target',
                           src=['c:LookupTableGate::wire_ith_multiplicity', 'c:from_canonical_usize'], ctx={'uncond': True}, whole=True,
                           why='multiplicities are written for every table entry; an early `continue` (e.g. when no padding is needed) would leave them 0 and the argument unbalanced'))
+    # R08.10 the prover credits a lookup to the table entry holding the looked-up PAIR
+    ck.rule('R08.10', 'set_lookup_wires resolves the table entry of a lookup from BOTH the looked-up input and output (the lookup argument compares pairs): a table may repeat an input with different outputs')
+    slw = F.one('plonk::prover::set_lookup_wires', crate='plonky2')
+    if slw is None:
+        ck.ob('R08.10', 'anchor', False, 'ANCHOR-MISSING set_lookup_wires')
+    else:
+        from .facts import pat_binds
+        D10 = defrender.Defs(slw)
+        loops_ = [n for n in walk(slw.body) if n.get('k') == 'For' and any(x.get('k') == 'Field' and x.get('n') == 'lut_to_lookups' for x in walk(n['it']))]
+        okk, why10, loc10 = False, 'no loop over lut_to_lookups found in set_lookup_wires', '%s:%d' % (slw.file, slw.line)
+        for lp in loops_:
+            binds = [b for b in pat_binds(lp['p'])]
+            gets = [x for x in walk(lp['b']) if x.get('k') == 'MCall' and x.get('n') == 'get' and x.get('a')]
+            if not gets:
+                continue
+            # locals reachable from the key expression through plain lets
+            reach = set()
+            todo = [gets[0]['a'][0]]
+            for _ in range(40):
+                if not todo:
+                    break
+                nd = todo.pop()
+                for y in walk(nd):
+                    if y.get('k') == 'Local' and y['id'] not in reach:
+                        reach.add(y['id'])
+                        d_ = D10.defs.get(y['id'])
+                        if d_ and d_[0] in ('let', 'part') and isinstance(d_[1], dict):
+                            todo.append(d_[1])
+            used = [b for b in binds if b['id'] in reach]
+            okk = len(binds) >= 2 and len(used) >= 2
+            why10 = 'the index key uses both components of the lookup (%s)' % ', '.join(b['n'] for b in used) if okk else \
+                'set_lookup_wires looks the table index up from %s only: for a table that lists an input twice with different outputs the multiplicity is credited to another entry than the one the lookup generator used, and a proof whose looked-up pairs are all in the table does not verify' % (', '.join(b['n'] for b in used) or 'no component of the lookup')
+            loc10 = gets[0].get('s')
+            break
+        ck.ob('R08.10', 'multiplicity.key', okk, why10, loc10)
     # R08.4 integer parameters of the argument agree between the three evaluators
     ck.rule('R08.4', 'the three lookup evaluators derive the same integer parameters (slots per row, degrees, number of partial polynomials, table chunk size) - compared as normalised polynomials, local names and len() receivers abstracted')
     from . import poly as _poly
